@@ -1195,13 +1195,28 @@ func (db *DB) Repair(of Object) (err error) {
 		return
 	}
 
-	// we re-index missing uuids
-	for uuid := range uuids {
-		// we don't re-index already indexed objects
-		if s.isUUIDIndexed(uuid) {
-			continue
+	// we de-index missing objects
+	for uuid := range s.ObjectIndex.uuids {
+		if !uuids[uuid] {
+			// if object is not on disk and is in index
+			s.unindexByUUID(uuid)
 		}
+	}
 
+	// entries of objects already indexed are rebuilt too: after a crash the
+	// index may describe another version of an object than the one its file
+	// holds (unnoticed by Control as identifiers agree), and such a stale
+	// entry can even make a legitimate file unindexable (unique constraint).
+	// Every entry is dropped before any file is indexed, so that no stale
+	// value is left to conflict with the value found in a file
+	for uuid := range uuids {
+		if s.isUUIDIndexed(uuid) {
+			s.unindexByUUID(uuid)
+		}
+	}
+
+	// we index every object found on disk
+	for uuid := range uuids {
 		// we decode every file into a fresh object, otherwise fields omitted
 		// from a file would keep the value found in the previous one
 		fresh := reflect.New(typeof(of)).Interface().(Object)
@@ -1211,14 +1226,6 @@ func (db *DB) Repair(of Object) (err error) {
 
 		if err = s.index(o); err != nil {
 			return
-		}
-	}
-
-	// we de-index missing objects
-	for uuid := range s.ObjectIndex.uuids {
-		if !uuids[uuid] {
-			// if object is not on disk and is in index
-			s.unindexByUUID(uuid)
 		}
 	}
 
